@@ -1211,6 +1211,18 @@ void Listener::EventDelayThrow(Event& ev)
     BroadcastEvent(const_str(0), ev);
 }
 
+// commands that hand the running thread to another object: there is none when the command was
+// queued (commanddelay) or when an earlier receiver of the same statement removed the thread
+static ScriptThread* RequireCurrentThread()
+{
+    ScriptThread* const thread = ScriptContext::Get().GetDirector().CurrentThread();
+    if (!thread) {
+        throw ScriptException("this command needs a running thread");
+    }
+
+    return thread;
+}
+
 void Listener::EventEndOn(Event& ev)
 {
     const_str name = ev.GetConstString(1);
@@ -1219,7 +1231,7 @@ void Listener::EventEndOn(Event& ev)
         throw ScriptException("cannot end the current thread!");
     }
 
-    EndOn(name, ScriptContext::Get().GetDirector().CurrentThread());
+    EndOn(name, RequireCurrentThread());
 }
 
 void Listener::EventGetOwner(Event& ev)
@@ -1258,7 +1270,7 @@ void Listener::WaitTill(Event& ev)
         throw ScriptException("invalid waittill " + director.GetDictionary().Get(name) + " for " + Class::GetClassname());
     }
 
-    Register(name, ScriptContext::Get().GetDirector().CurrentThread());
+    Register(name, RequireCurrentThread());
 }
 
 void Listener::WaitTillTimeout(Event& ev)
@@ -1279,10 +1291,11 @@ void Listener::WaitTillTimeout(Event& ev)
         throw ScriptException("invalid waittill " + director.GetDictionary().Get(name) + " for " + Class::GetClassname());
     }
 
-    Register(name, ScriptContext::Get().GetDirector().CurrentThread());
+    ScriptThread* const thread = RequireCurrentThread();
+    Register(name, thread);
 
     Event* newEvent = new Event(EV_ScriptThread_CancelWaiting);
-    ScriptContext::Get().GetDirector().CurrentThread()->PostEvent(newEvent, uinttime_t(timeout_time * 1000.f));
+    thread->PostEvent(newEvent, uinttime_t(timeout_time * 1000.f));
 }
 
 void Listener::WaitTillAny(Event& ev)
@@ -1303,7 +1316,7 @@ void Listener::WaitTillAny(Event& ev)
             throw ScriptException("invalid waittill " + director.GetDictionary().Get(name) + " for " + Class::GetClassname());
         }
 
-        Register(name, ScriptContext::Get().GetDirector().CurrentThread());
+        Register(name, RequireCurrentThread());
     }
 }
 
@@ -1328,11 +1341,11 @@ void Listener::WaitTillAnyTimeout(Event& ev)
             throw ScriptException("invalid waittill " + director.GetDictionary().Get(name) + " for " + Class::GetClassname());
         }
 
-        Register(name, ScriptContext::Get().GetDirector().CurrentThread());
+        Register(name, RequireCurrentThread());
     }
 
     Event* newEvent = new Event(EV_ScriptThread_CancelWaiting);
-    ScriptContext::Get().GetDirector().CurrentThread()->PostEvent(newEvent, uinttime_t(timeout_time * 1000));
+    RequireCurrentThread()->PostEvent(newEvent, uinttime_t(timeout_time * 1000));
 }
 
 void Listener::ExecuteScriptInternal(Event& ev, ScriptVariable& returnValue)
@@ -1351,7 +1364,7 @@ void Listener::WaitExecuteScriptInternal(Event& ev, ScriptVariable& returnValue)
 {
     ScriptThread* const thread = CreateScriptInternal(ev.GetValue(1));
 
-    thread->GetScriptClass()->Register(const_str(0), ScriptContext::Get().GetDirector().CurrentThread());
+    thread->GetScriptClass()->Register(const_str(0), RequireCurrentThread());
 
     thread->ScriptExecute(ev.GetListView(2), returnValue);
 }
@@ -1360,7 +1373,7 @@ void Listener::WaitExecuteThreadInternal(Event& ev, ScriptVariable& returnValue)
 {
     ScriptThread* const thread = CreateThreadInternal(ev.GetValue(1));
 
-    thread->Register(const_str(0), ScriptContext::Get().GetDirector().CurrentThread());
+    thread->Register(const_str(0), RequireCurrentThread());
 
     thread->ScriptExecute(ev.GetListView(2), returnValue);
 }
@@ -1395,6 +1408,10 @@ ScriptThread *Listener::CreateThreadInternal(const ScriptVariable& label)
     if (label.GetType() == variableType_e::String || label.GetType() == variableType_e::ConstString)
     {
         const ScriptClass* const scriptClass = director.CurrentScriptClass();
+        if (!scriptClass) {
+            throw ScriptException("no running thread to take the script of label '" + label.stringValue() + "' from");
+        }
+
         const ProgramScript* const scr = scriptClass->GetScript();
         return director.CreateScriptThread(scr, this, label.constStringValue());
     }
